@@ -12,6 +12,9 @@ vars == <<l, sid, skip, bad, h, f, nxt>>
 
 Offs == <<-4, -3, -2, -1, 0, 1, 2, 3, 4>>
 Fresh(k) == [i \in 1..k |-> nxt + i - 1]
+(* the items handed over: fresh ones, or - when the line says which - items of a small pool (the same item may come
+   again: boosted twice, listed on two pages) *)
+Items(e) == IF "tags" \in DOMAIN e THEN e.tags ELSE Fresh(e.k)
 
 \* ---------------- projections of the reference state, shaped like the harness observations
 HObs(hh) == [empty |-> HIsEmpty(hh), current |-> HCurrent(hh), elems |-> hh.elems, idx |-> hh.idx]
@@ -26,9 +29,9 @@ HAfter(e) == CASE e.op = "add"     -> HAdd(h, nxt)
                [] e.op = "back"    -> HBack(h)
                [] e.op = "forward" -> HForward(h)
 FAfter(e) == CASE e.op = "create"     -> FCreate(nxt)
-               [] e.op = "createlist" -> FCreateList(Fresh(e.k))
-               [] e.op = "append"     -> FAppend(f, Fresh(e.k))
-               [] e.op = "prepend"    -> FPrepend(f, Fresh(e.k))
+               [] e.op = "createlist" -> FCreateList(Items(e))
+               [] e.op = "append"     -> FAppend(f, Items(e))
+               [] e.op = "prepend"    -> FPrepend(f, Items(e))
                [] e.op = "up"         -> FMoveUp(f)
                [] e.op = "down"       -> FMoveDown(f)
                [] e.op = "center"     -> FMoveToCenter(f)
